@@ -38,6 +38,9 @@ def check_case(ctx, case):
         sc = Scene(r.out)
     except Malformed as e:
         return 'output not parseable: %s' % e
+    ax, ay = ctx.anchor()
+    if not (0 <= ax < 8 and 0 <= ay <= 16):
+        return 'a text element is anchored at (%s,%s) relative to the cell of its first character, which is outside that cell' % (ax, ay)
     grid = []
     quotes = {}
     for y, row in enumerate(rows):
@@ -61,8 +64,8 @@ def check_case(ctx, case):
     for e, ing in sc.flat():
         if e[0] != 'text':
             continue
-        cx = (e[2] - 2) / 8
-        cy = (e[3] - 12) / 16
+        cx = (e[2] - ax) / 8
+        cy = (e[3] - ay) / 16
         if cx.denominator != 1 or cy.denominator != 1:
             return 'text %r anchored at (%s,%s), not at the sub-cell point of a cell' % (e[4], e[2], e[3])
         cx, cy = int(cx), int(cy)
